@@ -30,6 +30,9 @@ func checkC20(c *Ctx) {
 	r.Explanation = "Decides the table clauses of C20 and three structural necessary conditions of its conversion clauses: the leap-second table equals the 18 published instants (+1 s each, strictly ascending), the GPS epoch constant is 1980-01-06T00:00:00Z, the EIRP coding table equals the specification and is strictly increasing with a guarded index, and no airtime computation scales up the result of a truncating integer division. The GPS conversions themselves are decided exactly by the bit-level engine (rules R7: time.Time modelled as a 64-bit nanosecond count, every instant 1980-2100 at once): applied offset = published leap-second count, strict monotonicity, round trips in both directions. It does NOT decide the floating-point airtime formula or sensitivity numerics (declined in DESIGN.md)."
 	r.Trusted = []string{"go/types constant evaluation", "internal/tables evaluator", "spec/time.json transcription", "package time (Date, Before, Add, Sub)"}
 	r.Rule("R1.leap", "leapSecondsTable = the 18 published leap-second instants, Duration = 1 s each, strictly ascending")
+	// R1 reads a literal table of that name; how the leap seconds are stored is an implementation matter, and what they
+	// amount to — the offset applied at every instant equals the published count — is decided by R7.gps-offset
+	r.Advisory("R1.leap", "R7.gps-offset")
 	r.Rule("R2.epoch", "gpsEpochTime = 1980-01-06 00:00:00 UTC")
 	r.Rule("R6.eirp-encode", "GetTXParamSetupEIRPIndex depends on the power only through comparisons with eirpTable entries, and on each of the 32 order types returns the largest index whose entry does not exceed the power")
 	r.Rule("R3.eirp", "eirpTable = 8,10,12,13,14,16,18,20,21,24,26,27,29,30,33,36 strictly increasing; decode index guarded")
